@@ -151,8 +151,10 @@ func applyMut(b []byte, mut string) []byte {
 
 // decodeForModel reads the stream the way rio's loop does (bodies of regular files only) and renders
 // the header list the model takes.
-func decodeForModel(b []byte) (string, string) {
-	tr := tar.NewReader(bytes.NewReader(b))
+func decodeForModel(b []byte) (string, string) { return decodeReaderForModel(bytes.NewReader(b)) }
+
+func decodeReaderForModel(rd io.Reader) (string, string) {
+	tr := tar.NewReader(rd)
 	var toks []string
 	fin := "eof"
 	for {
